@@ -151,7 +151,11 @@ class Gen:
         if allow_send and self.rng.random() < self.p.p_failing_code:
             # a statement that raises (ZeroDivisionError -> CodeEvaluationError) when bit k of c is set: code can fail in the
             # middle of a block, after it has sent events
-            parts.append('x = x // (1 - ((c >> %d) & 1))' % self.rng.randint(0, 13))
+            # (placed after the statements that send and before those that change the context: the model treats a block that
+            # raises as having no effect on the context, which is true of such a block)
+            sends = [q for q in parts if q.startswith(('send(', 'notify('))]
+            others = [q for q in parts if not q.startswith(('send(', 'notify('))]
+            parts = sends + ['x = x // (1 - ((c >> %d) & 1))' % self.rng.randint(0, 13)] + others
         return '\n'.join(parts)
 
     def cond(self, kind, with_old=True):
